@@ -127,7 +127,9 @@ class World:
         self.read_timeout = read_timeout
         self._saved = None
         self._calls = 0
-        self.debug = False       # swarm knob: clients created with debug=True (their prints are swallowed)
+        # swarm knob: clients created with debug=True (their prints are swallowed)
+        with ch.abs_scope("world"):
+            self.debug = ch.wl.flag("debug", 1, 6)
         self.clients = []
         self.parse_breaches = []
 
